@@ -149,7 +149,12 @@ Definition parse_entry (dq : nat) (acc : option err * parsed) (e : entry) : opti
 Fixpoint steps_multi_ops (N : nat) (ms : list (pdesc * list nat * list nat * option (list (string * string)))) : list step :=
   match ms with
   | [] => []
-  | (_, qs, _, _) :: r => let pos := map (bisect qs) (set_diff N qs) in OpInsert pos :: OpInsert pos :: steps_multi_ops N r
+  | (_, qs, _, _) :: r =>
+      let pos := map (bisect qs) (set_diff N qs) in
+      match pos with
+      | [] => steps_multi_ops N r                       (* `if pos:` -- nothing to insert *)
+      | _ => OpInsert pos :: OpInsert pos :: steps_multi_ops N r
+      end
   end.
 
 (* _merge_attrs / _insert_attrs on [nattr] attributes; registers = None is modelled by [first = true] *)
@@ -158,7 +163,8 @@ Fixpoint steps_merge_multi (nattr : nat) (with_ev : bool) (N : nat) (ms : list (
   match ms with
   | [] => ([], first, regs)
   | qs :: r =>
-      let ev := if with_ev then [EvInsert (map (bisect qs) (set_diff N qs))] else [] in
+      let ev := if with_ev then match set_diff N qs with [] => [] | _ => [EvInsert (map (bisect qs) (set_diff N qs))] end
+                else [] in
       let here := if first then [] else repeat (Merge (map (bisect regs) qs)) nattr in
       let regs' := if first then qs else fold_left insort qs regs in
       let '(rest, f', rg) := steps_merge_multi nattr with_ev N r false regs' in
@@ -189,7 +195,7 @@ Fixpoint cm_blocks (N : nat) (blocks : list (list nat)) (nns : list nat) (row : 
   end.
 
 (* identifiers pulse by pulse, control before noise, as the loops over the pulses do *)
-Fixpoint ids_of_blocks (N : nat) (bl : list (pdesc * list nat * option (list (string * string))))
+Fixpoint ids_of_blocks (fixed : bool) (N : nat) (bl : list (pdesc * list nat * option (list (string * string))))
   : err + (list string * list string) :=
   match bl with
   | [] => inr ([], [])
@@ -200,9 +206,10 @@ Fixpoint ids_of_blocks (N : nat) (bl : list (pdesc * list nat * option (list (st
         match map_ids (pd_nids p) m qs with
         | inl e => inl e
         | inr n =>
-          (* multi-qubit pulse on all N qubits (reached only when the shortcut is not taken): tensor_insert(.., pos=[]) *)
-          if (1 <? length qs) && (length (set_diff N qs) =? 0) then inl ErrNoArgs else
-          match ids_of_blocks N r with
+          (* before e379e51 ([fixed = false]): a multi-qubit pulse on all N qubits (reached only when the shortcut is
+             not taken) led to tensor_insert(.., pos=[]), which raises; since e379e51 the operators are used as they are *)
+          if negb fixed && (1 <? length qs) && (length (set_diff N qs) =? 0) then inl ErrNoArgs else
+          match ids_of_blocks fixed N r with
                    | inl e => inl e
                    | inr (cs, ns) => inr (c ++ cs, n ++ ns)
                    end
@@ -216,7 +223,7 @@ Fixpoint srcs_of_blocks (get : pdesc -> list string) (bl : list (pdesc * list na
   | (p, _, _) :: r => map (FromPulse k) (seq 0 (length (get p))) ++ srcs_of_blocks get r (S k)
   end.
 
-Definition extend (entries : list entry) (Narg : option nat) (dq : nat)
+Definition extend_gen (fixed : bool) (entries : list entry) (Narg : option nat) (dq : nat)
            (additional : option (nat * list string))     (* dimension and identifiers of the additional noise operators *)
            (cache_diag cache_ff : option bool) (omega_arg : option nat) : outcome :=
   let '(er, ps) := fold_left (parse_entry dq) entries (None, mkParsed [] [] []) in
@@ -268,7 +275,7 @@ Definition extend (entries : list entry) (Narg : option nat) (dq : nat)
     | Some true => Some true
     end in
   match cd_res with None => Raise ErrCacheDiag | Some cd =>
-  match ids_of_blocks N blocks with
+  match ids_of_blocks fixed N blocks with
   | inr (cids, nids0) =>
     let add_check : option (list string * list src) :=
       match additional with
@@ -309,6 +316,10 @@ Definition extend (entries : list entry) (Narg : option nat) (dq : nat)
     end
   | inl e => Raise e
   end end end end end end.
+
+(* the code as it is (since e379e51) and as it was between 9255946 and e379e51 *)
+Definition extend := extend_gen true.
+Definition extend_prefix := extend_gen false.
 
 (* ---------- numeric assembly of the cached control matrix / filter function ---------- *)
 From FF Require Import Model.Numeric.
